@@ -51,7 +51,8 @@ ASSUMPTIONS = h5.ASSUMPTIONS + [
     "copy.copy(pdu_conf) is shallow and nothing else aliases the caller's PduConfig; the caller's PduConfig and "
     "parameter object are compared field by field after construction (model: returned caller_conf_after / params_after)",
     "a Python str file name is represented by its UTF-8 octets (names with lone surrogates are outside the model); "
-    "MetadataParams.closure_requested is a bool (0/1); FinishedParams.file_store_responses is a list (never None) at construction",
+    "MetadataParams.closure_requested is a bool (0/1); FinishedParams.file_store_responses None / [] / omitted are all driven "
+    "through the constructor in the operation histories (Run/DirHist.v, fin_new_none)",
     "Finished file-store responses are FileStoreResponseTlv objects and the fault location an EntityIdTlv; Metadata options "
     "are CfdpTlv objects (other AbstractTlvBase subclasses pack through the same CfdpTlv.pack)",
     "the member sets of ConditionCode / DeliveryCode / FileStatus / ChecksumType are tied by exhaustive sweeps of the first "
@@ -101,6 +102,17 @@ def _res(f):
         return [0] + [int(x) for x in f()]
     except Exception as e:  # embedded result, class compared like a top-level one
         return [1, core.canon_code(core.classify_exception(e))]
+
+
+def _unpack(cls, octs):
+    """K.unpack from bytes or -- every third input, and half of the inputs of 512 octets or more -- from a bytearray
+    (a receive buffer) that is overwritten after the call: the decoded object must not depend on it any more"""
+    if (len(octs) + sum(octs[:8])) % 3 and not (len(octs) >= 512 and sum(octs[:8]) % 2):
+        return cls.unpack(bytes(octs))
+    buf = bytearray(octs)
+    p = cls.unpack(buf)
+    buf[:] = b"\xa5" * len(buf)
+    return p
 
 
 def _fin_n(a):
@@ -192,20 +204,23 @@ def _md_fields(p):
 
 
 def impl(op, a):
+    if op in (1346, 1356):
+        from harness.props import c06h
+        return c06h.impl(op, a)
     if op == 1340:
         p, conf, params = _fin(a)
         return _fin_fields(p) + _conf_lists(conf) + _fn_fields(params)
     if op == 1341:
         return [list(_fin(a)[0].pack())]
     if op == 1342:
-        return _fin_fields(FinishedPdu.unpack(bytes(a[0])))
+        return _fin_fields(_unpack(FinishedPdu, a[0]))
     if op == 1343:
-        return [list(FinishedPdu.unpack(bytes(a[0])).pack())]
+        return [list(_unpack(FinishedPdu, a[0]).pack())]
     if op == 1344:
         p = _fin(a)[0]
         b = p.pack()
         ex = a[5 + _fin_n(a):]
-        p2 = FinishedPdu.unpack(bytes(b) + bytes(ex[0] if ex else []))
+        p2 = _unpack(FinishedPdu, list(b) + list(ex[0] if ex else []))
         return [_res(lambda: [p2 == p]), _res(p2.pack)] + _fin_fields(p2)
     if op == 1345:
         p = _fin(a)[0]
@@ -232,14 +247,14 @@ def impl(op, a):
     if op == 1351:
         return [list(_md(a)[0].pack())]
     if op == 1352:
-        return _md_fields(MetadataPdu.unpack(bytes(a[0])))
+        return _md_fields(_unpack(MetadataPdu, a[0]))
     if op == 1353:
-        return [list(MetadataPdu.unpack(bytes(a[0])).pack())]
+        return [list(_unpack(MetadataPdu, a[0]).pack())]
     if op == 1354:
         p = _md(a)[0]
         b = p.pack()
         ex = a[6 + _md_n(a):]
-        p2 = MetadataPdu.unpack(bytes(b) + bytes(ex[0] if ex else []))
+        p2 = _unpack(MetadataPdu, list(b) + list(ex[0] if ex else []))
         return [[int(p2 == p)], _res(p2.pack)] + _md_fields(p2)
     if op == 1355:
         p = _md(a)[0]
@@ -597,9 +612,87 @@ def streams(tier, rng):
         a = [ids, flags, [4, 0, 1], [0], [n]] + [big_resp] * n
         cases.append((1340, a))
     yield "length_limit", "exact", cases
+    # 7b. size sweeps (every value of each length-carrying field; packet lengths across every multiple of 256 up to
+    #     ~1300; names ending in a 4-octet UTF-8 sequence; 0x80 / 0xFF octets in TLV values)
+    def _nm(n):
+        if n >= 4 and rng.random() < 0.5:
+            return h8.rname(rng, n - 4) + rng.choice([c for c in h8.CH if len(c) == 4])
+        return h8.rname(rng, n)
+    def _val(n):
+        return [rng.choice([0x00, 0x80, 0xFF, rng.randrange(256)]) for _ in range(n)]
+    cases = []
+    for n in range(0, 257):                      # source / destination name length
+        for which in ((3, 4) if big or n > 250 else (3 + n % 2,)):
+            ids, flags = _rand_conf(rng)
+            a = [ids, flags, [rng.randrange(2), rng.choice(CSTYPES), _rand_fsize(rng, flags[1])], [1] + _nm(rng.choice([0, 1, 7])),
+                 [1] + _nm(rng.choice([0, 1, 7])), [0, 0]]
+            a[which] = [1] + _nm(n)
+            cases.append((1354, a + [[]]))
+            if n > 250:
+                cases.append((1350, a)); cases.append((1351, a))
+    for n in range(0, 257):                      # option value length; number of options
+        ids, flags = _rand_conf(rng)
+        a = [ids, flags, [0, 0, 5], [1, 0x61], [1, 0x62], [1, 1], [rng.choice(h8.TLV_TYPES)] + _val(n)]
+        cases.append((1354, a + [[]]))
+        if n > 250:
+            cases.append((1350, a)); cases.append((1351, a))
+        if big or n <= 40 or n % 32 in (31, 0, 1):
+            ids, flags = _rand_conf(rng)
+            a = [ids, flags, [0, 0, 5], [1, 0x61], [1, 0x62], [1, n]] + [[rng.choice(h8.TLV_TYPES)] + _val(rng.choice([0, 0, 1])) for _ in range(n)]
+            cases.append((1354, a + [[]]))
+    for k in range(0, 5):                        # total length: k options of 257 octets + a name of n octets
+        for n in range(k % 9, 256, 1 if big else 9):
+            ids, flags = _rand_conf(rng)
+            a = [ids, flags, [1, 3, 5], [1] + _nm(n), [1, 0x62], [1, k]] + [[2] + _val(255) for _ in range(k)]
+            cases.append((1354, a + [[]]))
+    # the same sweep around every multiple of 256 / 512 of the packet length up to 1300 (+-8)
+    for target in list(range(256, 1301, 256)) + [4096]:      # ... and 4 KiB
+        for d in (range(-8, 9) if target < 4096 else range(-3, 4)):
+            ids, flags = _rand_conf(rng)
+            hl = 4 + 2 * ids[1] + ids[5]
+            fixed = hl + 1 + 1 + (8 if flags[1] else 4) + 1 + 1 + (2 if flags[2] else 0)     # with empty names, no options
+            rest = target + d - fixed
+            k = max(0, (rest - 200)) // 257
+            rest -= 257 * k
+            if rest < 0:
+                continue
+            sn = min(rest, 255); dn = min(rest - sn, 255)
+            a = [ids, flags, [1, 3, 5], [1] + _nm(sn), [1] + _nm(dn), [1, k]] + [[2] + _val(255) for _ in range(k)]
+            cases.append((1354, a + [[]]))
+    yield "sizes_metadata", "exact", cases
+    cases = []
+    for n in range(0, 257):                      # fault-location length; first-name length of one response
+        if big or n <= 16 or n >= 246 or n % 3 == 0 or n % 64 in (63, 1):
+            ids, flags = _rand_conf(rng)
+            a = [ids, flags, [rng.choice([4, 6, 15]), 0, 1], [1] + _val(n), [0]]
+            cases.append((1344, a + [[]]))
+            if n > 250:
+                cases.append((1340, a)); cases.append((1341, a))
+        if n <= 252 and (big or n % 2 or n > 240):
+            ids, flags = _rand_conf(rng)
+            r = [0, 0, n, 0] + _nm(n)
+            a = [ids, flags, [rng.choice([0, 4]), 1, 2], _rand_fault(rng), [1], r]
+            cases.append((1344, a + [[]]))
+    for n in list(range(0, 34)) + [63, 64, 65, 127, 128, 129] + ([255, 256, 257] if big else []):      # number of responses
+        ids, flags = _rand_conf(rng)
+        a = [ids, flags, [4, 0, 1], _rand_fault(rng), [n]] + [_rand_resp(rng, True) for _ in range(n)]
+        cases.append((1344, a + [[]]))
+    for target in list(range(256, 1301, 256)) + [4096]:         # packet length +-8 around every multiple of 256, 4 KiB
+        for d in (range(-8, 9) if target < 4096 else range(-3, 4)):
+            ids, flags = _rand_conf(rng)
+            hl = 4 + 2 * ids[1] + ids[5]
+            rest = target + d - (hl + 2 + (2 if flags[2] else 0))
+            resps = []
+            while rest >= 5:
+                n = min(rest - 5, 240)
+                resps.append([0, 0, n, 0] + _nm(n)); rest -= 5 + n
+            fault = [1] + _val(rest - 2) if rest >= 2 else [0]
+            a = [ids, flags, [4, 0, 1], fault, [len(resps)]] + resps
+            cases.append((1344, a + [[]]))
+    yield "sizes_finished", "exact", cases
     # 8. random PDUs: pack, round trip, round trip with look-alike suffixes, decode of layout ++ suffix
     cases = []
-    for _ in range(6000 if big else 900):
+    for _ in range(6000 if big else 800):
         a = _rand_fin(rng)
         cases.append((1341, a)); cases.append((1344, a + [[]]))
         sfx = _suffix(rng)
@@ -615,7 +708,7 @@ def streams(tier, rng):
     yield "random_roundtrip_suffix", "exact", cases
     # 9. targeted malformed
     cases = []
-    for _ in range(120 if big else 24):
+    for _ in range(120 if big else 19):
         a = _rand_fin(rng, small=True, nresp=rng.choice([0, 1, 2]))
         if valid_fin(a):
             hl = 4 + 2 * a[0][1] + a[0][5]
@@ -725,6 +818,11 @@ def streams(tier, rng):
         if rng.random() < 0.3:
             cases.append((op + 1, [d]))
     yield "garbage", "verdict", cases
+    # 12. operation histories (harness/props/c06h.py, model Run/DirHist.v)
+    from harness.props import c06h
+    for st in c06h.streams_for(["fin", "md"], tier, rng, "b"):
+        yield st
+    yield "histories_limit_b", "exact", c06h.limit_cases("fin", rng, big) + c06h.limit_cases("md", rng, big)
 
 
 # ------------------------------------------------------------------ oracle
@@ -781,6 +879,9 @@ def _check_decoded_fin(b, f, what):
     hd, ids, flags, lens, dt, plen, codes, fault, resps, _ = _split_fin_fields(f)
     hl = _hl(ids)
     pl = hl + b[1] * 256 + b[2]
+    if flags[2] == 1 and len(b) >= pl and h5.crc16_bitwise(b[:pl]) != 0:
+        return ("C06/FinishedPdu.unpack/corrupted-accepted", "octets %s carry the CRC flag, their CRC-16 does not check, "
+                "and they were accepted" % list(b[:48]))
     if hd[0] != 0 or dt != 5:
         return None      # a different PDU decoded as Finished: the caller's responsibility (docstring)
     try:
@@ -803,6 +904,9 @@ def _check_decoded_md(b, f, what):
     hd, ids, flags, lens, dt, plen, par, srcv, dstv, srcg, dstg, opts, _ = _split_md_fields(f)
     hl = _hl(ids)
     pl = hl + b[1] * 256 + b[2]
+    if flags[2] == 1 and len(b) >= pl and h5.crc16_bitwise(b[:pl]) != 0:
+        return ("C06/MetadataPdu.unpack/corrupted-accepted", "octets %s carry the CRC flag, their CRC-16 does not check, "
+                "and they were accepted" % list(b[:48]))
     if hd[0] != 0 or dt != 7:
         return None
     try:
@@ -825,6 +929,9 @@ def _check_decoded_md(b, f, what):
 def oracle(case, ires, sres):
     """The property itself, evaluated on the implementation's observable behaviour."""
     op, a = case
+    if op in (1346, 1356):
+        from harness.props import c06h
+        return c06h.oracle(case, ires, sres)
     err = ires[0][0] == 1
     code = ires[0][1] if err else None
     # ---------------- Finished
